@@ -38,6 +38,7 @@ PROBES = ['served_from_partial_cache', 'tensor_after_component',
           'io_fault_raise_accepted', 'read_after_failed_read',
           'io_fault:create', 'io_fault:open_r', 'io_fault:open_w',
           'second_simulation_with_the_same_name', 'read_from_checkpoints',
+          'reads_while_the_run_is_going_on', 'writer_events_between_reads',
           'single_precision_3d_output']
 COMPONENTS = {
     'aurel.reading.read_data/read_ET_data/read_aurel_data/save_data/'
@@ -133,10 +134,37 @@ def generate(rng, tier):
                             'split': gs.chance(0.7)})
             out.append(o)
         ops = out
+    # the run is still going on while it is read: writer events between the
+    # reads, which then use skip_last=True (the documented way to look at a
+    # running simulation); at the end the writer finishes and the last reads
+    # see everything
+    gl = rng.child('live')
+    if gl.chance(0.2) and len(cfg['restarts']) >= 2:
+        nev = len(etsim.ETSim(cfg, None).events)
+        out = [{'op': 'writer', 'n': gl.randint(max(1, nev // 3),
+                                                max(2, 2 * nev // 3))}]
+        for o in ops:
+            o = dict(o)
+            o.pop('fault', None)
+            if o.get('restart', -1) >= 0:
+                o['restart'] = -1
+            o['skip_last'] = True
+            out.append(o)
+            if gl.chance(0.5):
+                out.append({'op': 'writer', 'n': gl.randint(1, max(
+                    1, nev // 3))})
+        out.append({'op': 'writer', 'finish': True})
+        for o in ops[:gl.randint(1, 3)]:
+            o = dict(o)
+            o.pop('fault', None)
+            o['skip_last'] = False
+            out.append(o)
+        ops = out
+        cfg['live_writer'] = True
     # a second simulation with the SAME name under another root directory,
     # read in the same session (same layout and values, other times)
     gt = rng.child('twin')
-    if gt.chance(0.15):
+    if gt.chance(0.15) and not cfg.get('live_writer'):
         out = []
         for o in ops:
             if gt.chance(0.5):
@@ -172,9 +200,9 @@ def simplify(run):
             if o['fault']['at'] > 1:
                 c = copy.deepcopy(run); c['ops'][i]['fault']['at'] -= 1
                 yield c
-        if not o['split']:
+        if not o.get('split'):
             continue
-        if o['restart'] != -1:
+        if o.get('restart', -1) != -1:
             c = copy.deepcopy(run); c['ops'][i]['restart'] = -1; yield c
 
 
@@ -198,7 +226,14 @@ def _execute(run, plan):
         probe(k, n)
 
     sim = etsim.ETSim(cfg, h5py)
-    sim.run_all()
+    live = bool(cfg.get('live_writer'))
+    if live:
+        import os
+        os.makedirs(sim.simdir, exist_ok=True)
+        probe('reads_while_the_run_is_going_on')
+    else:
+        sim.run_all()
+    cat = iosim.Catalogued()
     param = etsim.param_of(cfg)
     sim2 = param2 = None
     if any(o.get('twin') for o in run['ops']):
@@ -232,10 +267,20 @@ def _execute(run, plan):
         for opi, op in enumerate(run['ops']):
             if viol:
                 break
+            if op['op'] == 'writer':
+                ev = sim.run_all() if op.get('finish') else sim.step(op['n'])
+                fault('writer_events_between_reads', len(ev))
+                tr.event('writer', n=len(ev))
+                continue
+            skip = bool(op.get('skip_last'))
+            if live:
+                # restarts the catalogue can know: those complete at some
+                # earlier call plus, now, all started ones but the last
+                vis = cat.call(list(sim.restarts_started), skip)
             kwargs = dict(it=list(op['it']), vars=list(op['vars']),
                           rl=op['rl'], restart=op['restart'],
                           split_per_it=op['split'], verbose=False,
-                          skip_last=False)
+                          skip_last=skip)
             if op.get('chk'):
                 kwargs['usecheckpoints'] = True
                 probe('read_from_checkpoints')
@@ -290,6 +335,9 @@ def _execute(run, plan):
                         name == 'ValueError'
                         and site == 'read_ET_group_or_var')):
                     probe('absent_iteration_raise_accepted')
+                    continue
+                if live and not vis:
+                    probe('nothing_complete_yet_raise_accepted')
                     continue
                 viol.append({
                     'sig': f'read:raised:{name}:{site}:'
@@ -365,11 +413,13 @@ def _execute(run, plan):
         if order.permuted:
             fault('enum_permuted', order.permuted)
     lay = sorted({(rs['per_proc'], rs['grouped']) for rs in cfg['restarts']})
-    state_sig = digest([[o['split'] for o in run['ops']],
+    rops = [o for o in run['ops'] if o['op'] == 'read']
+    state_sig = digest([[o['split'] for o in rops],
                         [('T' if any(v in etsim.AUREL_TENSORS
                                      for v in o['vars']) else
                           ('A' if not o['vars'] else 'C'))
-                         for o in run['ops']], nres, overlap, lay])
+                         for o in rops], nres, overlap, lay,
+                        [o['op'][0] for o in run['ops']]])
     return {'violations': viol[:4], 'digest': tr.hexdigest(),
             'n_ops': len(run['ops']), 'faults': faults, 'probes': probes,
             'state_sig': state_sig,
